@@ -39,7 +39,9 @@ def classify(r):
     if ev == "Observe":
         cold = "cold" if r["index"] > 0 and r["raw"][r["index"] - 1].get("ev") == "Observe" else "warm"
         return ("dump-differs|%s|placement=%s" % (cold, st.get("Placement")), what)
-    return ("seq|%s|%s|placement=%s" % (ev, op, st.get("Placement")), what)
+    hist = "|after-rolled-back-update" if (ev in ("OpError", "ObserveError") and "no such file" in raw.get("note", "")
+                                            and txnlib.rolled_back_update(r["raw"], r["index"], raw.get("s"))) else ""
+    return ("seq|%s|%s|placement=%s%s" % (ev, op, st.get("Placement"), hist), what)
 
 
 def run(c):
